@@ -12,6 +12,8 @@ mod _lang {
         pub use crate::basilisp_native::seq::{
             sequence, to_seq, Cons, EmptySequence, LazySeq, SeqIterator,
         };
+        #[pymodule_export]
+        pub use crate::basilisp_native::seq::_verif_set_lock_wait_hook;
     }
 
     /// Allow importing basilisp._lang.seq directly.
